@@ -357,6 +357,35 @@ impl Family for CastleFamily {
     }
 }
 
+/// Both sides have king and both rooks at home; every one of the 16 combinations of castling
+/// rights; either side to move; one optional extra man of any kind and colour anywhere.
+pub struct BothCastleFamily;
+impl Family for BothCastleFamily {
+    fn name(&self) -> String {
+        "both-sides castling family (16 rights sets, 1 optional extra man)".into()
+    }
+    fn size(&self) -> u64 {
+        2 * 16 * (1 + 10 * 64)
+    }
+    fn get(&self, mut i: u64) -> Option<RefPos> {
+        let mut p = RefPos::empty();
+        p.stm = if take(&mut i, 2) == 0 { Col::W } else { Col::B };
+        p.castle = take(&mut i, 16) as u8;
+        for c in [Col::W, Col::B] {
+            let hr = c.home_rank();
+            p.put(sq(4, hr), Kind::K, c);
+            p.put(sq(0, hr), Kind::R, c);
+            p.put(sq(7, hr), Kind::R, c);
+        }
+        if let Some((k, c, s)) = Extra::Any.get(take(&mut i, 1 + 10 * 64), Col::W) {
+            if !place(&mut p, s, k, c) {
+                return None;
+            }
+        }
+        valid(p)
+    }
+}
+
 /// Promotion family: a pawn of the side to move on its seventh rank; kings anywhere; the three
 /// squares in front of it (promotion rank, adjacent files) each empty or an enemy N/B/R/Q.
 pub struct PromoFamily {
